@@ -145,6 +145,23 @@ def run(tier, seed, rng):
                 sv = ('pkt', 0, {0: 0, 1: a % 65536, 2: [b % 65536, c2 % 65536], 3: 0x0a0b})
             SG.add_derive(0, sv, seed=1, maxcuts=0, flips=0)
         groups.append(SG)
+    # ---- tables of THREE and more options (sizes and selected fields given by chooses in its list, dict and lambda forms)
+    for variant, how in enumerate(('expr', 'lambda')):
+        size3 = ('choosed', ('field', 0), [1, 2, 3], [('lit', 2), ('lit', 4), ('lit', 1)])
+        size4 = ('choose', ('bin', 'Mod', ('field', 0), ('lit', 4)), [('lit', 0), ('lit', 3), ('lit', 1), ('lit', 2)])
+        opts3 = [('lit', ('leaf', ('int', 1, False, None, 0))), ('lit', ('leaf', ('int', 2, False, None, 0))), ('lit', ('leaf', ('int', 4, False, None, 0)))]
+        sel3 = ('choosed', ('field', 0), [1, 2, 3], opts3)
+        fields = [{'move': None, 'body': ('elem', ('leaf', ('int', 1, False, None, 0)))},
+                  {'move': None, 'body': ('elem', ('leaf', ('dsized', size3, how, b'')))},
+                  {'move': None, 'body': ('elem', ('leaf', ('dsized', size4, how, b'')))},
+                  {'move': None, 'body': ('elem', ('refsel', sel3, how, 0))},
+                  {'move': None, 'body': ('elem', ('leaf', ('int', 1, False, None, 0)))}]
+        ctable = {0: dict(end=None, align=None, sbl=None, gp=True, gu=True, vec=True, ann=True, fields=fields)}
+        CG = pktcases.Group(ctable, 93000 + variant)
+        s3 = {1: 2, 2: 4, 3: 1}; s4 = [0, 3, 1, 2]; w3 = {1: 1, 2: 2, 3: 4}
+        for k in (1, 2, 3):
+            CG.add_derive(0, ('pkt', 0, {0: k, 1: b'abcdefgh'[:s3[k]], 2: b'XYZ'[:s4[k % 4]], 3: 256 ** (w3[k] - 1) + 5, 4: 9}), seed=1, maxcuts=0, flips=0)
+        groups.append(CG)
     records, disagreements = pktcases.run_groups(groups, 'c02')
     failures = []
     dist = dict(values=0, packed=0, reparsed_equal=0, not_serializable=0, reference_encoding_checked=0, with_positioning=0, census=0, in_sequential_theorem=0, in_extended_theorem=0)
